@@ -161,6 +161,22 @@ Theorem C13_chunked_same : forall chunked isVideo scte s d ts,
 Proof. exact chunked_same. Qed.
 Print Assumptions C13_chunked_same.
 
+(** Wall clock. The schedule theorems above are on the media timeline of the segments, which starts at
+    availabilityStartTime (start_<s>). A splice at offset off of a media-timeline minute is off seconds
+    after a full WALL-CLOCK minute, as the property words it, iff 60 divides the start time. *)
+Theorem C13_wall_clock_iff : forall start m off, 0 <= off < 60 ->
+  (wall_second start m off mod 60 = off <-> start mod 60 = 0).
+Proof. exact wall_offset_iff. Qed.
+Print Assumptions C13_wall_clock_iff.
+
+(** FINDING (offset-on-media-timeline:start-not-multiple-of-60): start_1700000065, N = 1: the splice at
+    media time 70 s is 35 s, not 10 s, after the full wall-clock minute. *)
+Theorem C13_wall_clock_refuted :
+  let start := 1700000065 in
+  wall_second start 1 10 mod 60 = 35 /\ splice_offsets 1 = Some [10] /\ start mod 60 = 25.
+Proof. exact wall_offset_witness. Qed.
+Print Assumptions C13_wall_clock_refuted.
+
 (** Non-vacuity: 2 s segments at 90 kHz over [0 s, 130 s), N = 3: the domain hypotheses hold, the
     events are exactly the splices at 10, 36, 46, 70, 96, 106, 130 s in this order, and minute 1 has 3. *)
 Example C13_example :
